@@ -142,6 +142,28 @@ func (c16) Run(c *run.Ctx, phase, idx int) {
 			if !bytes.Equal(p.Data(), body) {
 				c.Violation("C16/undefined-data", fmt.Sprintf("Undefined.Data() = % x, the frame body is % x", p.Data(), body), det())
 			}
+			// "the decoded packet keeps the lower four bits": the same body
+			// behind another flag nibble must give a packet that can be told
+			// from this one through what the type offers (String, Dump, Data)
+			if k < 4 {
+				otherFirst := first ^ byte(1+r.Intn(15))
+				o := libRead(ref.Reframe(otherFirst, body))
+				c.Eval(1)
+				if ou, ok := o.Pkt.(*mq.Undefined); ok && o.Accepted() {
+					render := func(u *mq.Undefined) (s string) {
+						mon.Guard(func() {
+							var b bytes.Buffer
+							mq.Dump(&b, u)
+							s = u.String() + "\n" + b.String()
+						})
+						return
+					}
+					c.Count("undefined-flag-pairs", "compared", 1)
+					if a, b := render(p), render(ou); a == b && a != "" {
+						c.Violation("C16/undefined-flags-lost", fmt.Sprintf("type 0 frames with first bytes %#02x and %#02x and the same body decode to packets that String, Dump and Data cannot tell apart (%q): the lower four bits are not kept", first, otherFirst, p.String()), det())
+					}
+				}
+			}
 			continue
 		case *mq.Publish:
 			if p.Duplicate() != (fl&8 != 0) || p.QoS() != (fl>>1)&3 || p.Retain() != (fl&1 != 0) {
